@@ -290,4 +290,7 @@ class Schedule:
         if not isinstance(value, Schedule):
             return False
 
-        return self.schedule == value.schedule
+        return (
+            self.instance == value.instance
+            and self.schedule == value.schedule
+        )
